@@ -322,13 +322,23 @@ def rules_eq(run):
                 return len(e.ops) == 1 and isinstance(e.ops[0], ast.Eq)
             if isinstance(e, ast.Call) and isinstance(e.func, ast.Attribute) and e.func.attr == '__eq__':
                 return True
+            if isinstance(e, ast.Constant) and e.value is True and depth > 0:
+                return True      # the neutral start value of an accumulated conjunction
             if isinstance(e, ast.Name) and depth < 3:
                 o = q.local_origin(M, e)
                 return bool(o) and all(not (isinstance(x, ast.Name) and x.id == e.id) and leaf_ok(x, depth + 1) for x in o)
             return False
+        verdicts = []
         for x in [x for x in q.walk(M, False) if isinstance(x, ast.Return) and x.value is not None]:
-            v = strip_cast(x.value)
-            at = guard_atoms(x)
+            for v_, at_ in q.cases(M, x.value):
+                verdicts.append((x, strip_cast(v_), guard_atoms(x) + at_))
+        has_override = any(any(a[0] == 'truthy' and a[1].replace(' ', '').startswith('isinstance(%s,' % op) for a in at_) for x_, v_, at_ in verdicts)
+        for x, v, at in verdicts:
+            if isinstance(v, ast.Constant) and v.value is True and any(not isinstance(v2_, ast.Constant) for x2_, v2_, at2_ in verdicts if x2_ is x):
+                continue      # the neutral start value of an accumulated conjunction (overwritten by the first comparison)
+            if not at and has_override and ((isinstance(v, ast.Name) and v.id == 'NotImplemented') or (isinstance(v, ast.Constant) and v.value is False)):
+                run.ok(r, m.short, 'NotImplemented is the default, replaced for an operand of the class', x)
+                continue
             inst = [a for a in at if a[1].replace(' ', '').startswith('isinstance(%s,' % op)]
             pos = [a for a in inst if a[0] == 'truthy']
             neg = [a for a in inst if a[0] == 'falsy']
@@ -617,6 +627,15 @@ def check(run):
                       'the %s contract is written when any of the three condition lists is non-empty' % lv_,
                       'the %s contract is written under %s' % (lv_, [q.unparse(g[0])[:60] for g in gl]), node)
     for lv_, F_ in (('state', si.node), ('transition', ti.node)):
+        # every object the importer hands back went through the contract loop
+        cl = [n for n in q.walk(F_, False) if isinstance(n, ast.For) and any("'contract'" in q.unparse(o_) for o_ in [n.iter] + q.local_origin(F_, n.iter))]
+        run.check(len(cl) == 1, r2, lv_ + ' importer', "one loop over the 'contract' items", 'found %d' % len(cl), F_)
+        if len(cl) == 1:
+            from ..cfg import build_cfg as _bc
+            cfg_ = _bc(F_)
+            for rt_ in [x for x in q.walk(F_, False) if isinstance(x, ast.Return) and x.value is not None]:
+                run.check(cfg_.dominates(cfg_.node_of(cl[0]), cfg_.node_of(rt_)), r2, lv_ + ' importer', 'the contract is imported before the %s is returned' % lv_,
+                          'a %s is returned without its contract (early return before the contract items are read)' % lv_, rt_)
         got_ = {k: v[0] for (l_, k), v in inodes.items() if l_ == 'contract:' + lv_}
         run.check(set(got_) == set(KINDS), r2, lv_ + ' importer', 'before / after / always items of a %s contract are all imported' % lv_, 'imports only %s' % sorted(got_), F_)
         for k_, c_ in got_.items():
@@ -675,6 +694,16 @@ def check(run):
             if a[0] == '==' and N['iprio'] in (a[1], a[2]):
                 lit = (a[2] if a[1] == N['iprio'] else a[1]).strip("'")
                 pr_imp[lit] = q.unparse(v)
+    if not pr_imp:
+        # the mapping is written as a case split of the value handed to Transition(.., priority)
+        for c_ in q.calls(ti.node, nested=False):
+            if isinstance(c_.func, ast.Name) and c_.func.id == 'Transition':
+                parg = q.arg(c_, 5, 'priority')
+                for v, at in (q.cases(ti.node, parg) if parg is not None else []):
+                    for a in at:
+                        if a[0] == '==' and (N['iprio'] in (a[1], a[2]) or 'priority' in a[1] + a[2]):
+                            lit = (a[2] if a[2].startswith("'") else a[1]).strip("'")
+                            pr_imp[lit] = q.unparse(v)
     pr_exp = {}
     tprio = N['transition'] + '.priority'
     for st, v in q.assigned_value(xi.node, N['xprio'] or '?'):
